@@ -236,6 +236,7 @@ def run_c04(rep, tier):
         mode = {7089: 'numeric', 7090: 'numeric', 4296: 'alphanumeric', 4297: 'alphanumeric', 2953: 'byte', 2954: 'byte', 1817: 'kanji', 1818: 'kanji'}[n]
         calls.append(call('make', gen.content_for_mode(r, mode, n)))
     calls += gen.eci_boundary_calls(call, tier == 'quick')
+    calls += gen.multipart_boundary_calls(call, tier == 'quick')
     obs = symobs.observe_many(calls, props=['C04'])
     for o in obs:
         o['exp']['req'] = norm_req(o['_call'])
@@ -340,6 +341,10 @@ def c07_calls(tier, r):
         pairs = [(hi, lo) for hi in range(256) for lo in range(256)]
     for hi, lo in pairs:
         calls.append(call('make', bytes([hi, lo])))
+    # requested mode hanzi: every lead byte x the trail bytes around the range edges (GB2312 rows A1-AA and B0-FA; AB-AF is a gap)
+    for hi in range(0x9f, 0x100):
+        for lo in (0xa0, 0xa1, 0xa2, 0xcf, 0xfd, 0xfe, 0xff) if tier == 'quick' else range(0x9f, 0x100):
+            calls.append(call('make', bytes([hi, lo]), mode='hanzi'))
     # three / four byte mixes around the class boundaries
     seeds = [b'12', b'1A', b'A:', b'a1', b'\x81\x40', b'\x9f\xfc', b'\xe0\x40', b'\xeb\xbf', b'\xeb\xc0', b'\x81\x3f', b'\xa0\x40', b' $', b'%*']
     for s1 in seeds:
